@@ -23,8 +23,11 @@ out.append('## Appendix B. Detection record\n')
 out.append('''Independent sub-agents were given only a property's text and a scratch worktree
 of `/repo` and asked for a change that breaks the property, keeps the suite
 green and needs something specific to manifest, with a demonstration. Round 1
-(one agent per property) and round 2 (14 agents, told which sites were already
-taken and pointed at the less obvious corners) delivered %d changes that were
+(one agent per property), round 2 (14 agents, told which sites were already
+taken and pointed at the less obvious corners), round 3 (14 agents, asked for
+two cooperating sites), round 4 (8 agents, history- or state-dependent
+changes) and round 5 (8 agents, population- and threshold-dependent changes)
+delivered %d changes that were
 kept; each was re-confirmed in a scratch worktree (`tools/confirm_mutant.sh`:
 suite passes with it, demo fails with it and passes without) and run against
 the checks (`tools/try_mutant.sh`). `/verif/seeded/<id>/` holds `patch.diff`
@@ -57,7 +60,13 @@ three threads — answered by putting two roles into one thread; (4) the
 value accesses and payload destructors were not scheduling points of their
 own, so windows between a pointer/tag load and the plain access behind it did
 not exist. (4) is the important one: it was invisible from inside and only the
-seeded changes showed it.
+seeded changes showed it. Round 4 added (5) *populations*: the implementation
+switches code paths on how many tasks are parked (8) and scans lists whose
+length no scenario exceeded (3); E2 now sweeps 1..12 parked tasks and 1..12
+extra streams / handles / 8 extra senders, and compares the results of the
+long churn histories with the model. Misses per round (first try): 10 of 40,
+10 of 27, 4 of 25, 5 of 11 (three of these five were reported by the check of a
+neighbouring property and only the own property's scenario set was extended).
 
 Seeds whose own property's oracle stays silent while another check fires are
 recorded as such (e.g. the C02 seeds manifest as loss/duplication within the
